@@ -366,6 +366,8 @@ func swarmOracle(r *rand.Rand, n int, tier string, infile string) (cases int, fa
 		cases++
 		muxReopenDeliveryCase(bad)
 		cases++
+		multiMixedMTUCase(bad)
+		cases++
 		dupHoldCase("frag", bad)
 		dupHoldCase("mbapp", bad)
 		cases += 2
@@ -385,6 +387,8 @@ func swarmOracle(r *rand.Rand, n int, tier string, infile string) (cases int, fa
 		closeDuringDone[tpl.name] = true
 		closeDuringCallbackCase(tpl, bad)
 		cases++
+		closePendingCase(tpl, bad)
+		cases++
 	}
 	return cases, fails
 }
@@ -394,6 +398,60 @@ var closeDuringDone = map[string]bool{}
 // muxReopenCase (C12, repeated Close): a muxed channel is opened, closed, opened again under the same id, the stale
 // handle is closed a second time (a leftover deferred Close), then the live handle is closed: its blocked Receive and
 // ServeAsk calls and every later one must return an error promptly.
+// multiMixedMTUCase (C09): a multiswarm over two transports with different MTUs. Whatever MTU() it reports, a payload of
+// that size is accepted for every destination it can address (none of the layers beneath refuses it for size) and
+// arrives intact; one byte more is refused with the MTU error.
+func multiMixedMTUCase(bad func(string, ...any)) {
+	small := memswarm.NewRealm(memswarm.WithQueueLen(16), memswarm.WithMTU(1024))
+	big := memswarm.NewRealm(memswarm.WithQueueLen(16), memswarm.WithMTU(4096))
+	mk := func() p2p.Swarm[multiswarm.Addr] {
+		return multiswarm.New(map[string]multiswarm.DynSwarm{
+			"small": erase[memswarm.Addr](small.NewSwarm()), "big": erase[memswarm.Addr](big.NewSwarm())})
+	}
+	a, b := mk(), mk()
+	defer func() {
+		// C12: the last payload sent to the larger transport was accepted and nobody receives it: Close ends all the same
+		time.Sleep(60 * time.Millisecond)
+		closed := make(chan struct{})
+		go func() { b.Close(); a.Close(); close(closed) }()
+		select {
+		case <-closed:
+		case <-time.After(3 * time.Second):
+			bad("C12 multiswarm over two in-memory transports: Close did not return within 3 s while a message that nobody receives was pending")
+		}
+	}()
+	mtu := a.MTU()
+	for _, dst := range b.LocalAddrs() {
+		for _, size := range []int{mtu - 1, mtu} {
+			if size < 0 {
+				continue
+			}
+			p := make([]byte, size)
+			for i := range p {
+				p[i] = byte(i*7 + size)
+			}
+			ctx, cf := context.WithTimeout(context.Background(), time.Second)
+			err := a.Tell(ctx, dst, p2p.IOVec{p})
+			var got []byte
+			if err == nil {
+				b.Receive(ctx, func(m p2p.Message[multiswarm.Addr]) { got = append([]byte{}, m.Payload...) })
+			}
+			cf()
+			if err != nil {
+				bad("C09 multiswarm over transports of MTU 1024 and 4096 reports MTU()=%d, but a payload of %d bytes to %s is refused: %v", mtu, size, addrText(dst), err)
+			} else if !bytes.Equal(got, p) {
+				bad("C09 multiswarm (MTU()=%d): a payload of %d bytes to %s was accepted but %d bytes arrived", mtu, size, addrText(dst), len(got))
+			}
+		}
+		ctx, cf := context.WithTimeout(context.Background(), time.Second)
+		err := a.Tell(ctx, dst, p2p.IOVec{make([]byte, mtu+1)})
+		cf()
+		if !p2p.IsErrMTUExceeded(err) && strings.HasPrefix(addrText(dst), "small") {
+			bad("C09 multiswarm (MTU()=%d): a payload of MTU()+1 bytes to %s is not refused with the MTU error: %v", mtu, addrText(dst), err)
+		}
+	}
+}
+
 // muxReopenDeliveryCase (C15, the open-channel table decides delivery): traffic on a channel, the destination closes its
 // swarm for that channel and opens the channel again, more traffic on the same channel: the swarm that is open NOW
 // receives it; nothing reaches another channel.
@@ -648,6 +706,45 @@ func holdReuseCase(kind string, bad func(string, ...any)) {
 // closeDuringCallbackCase: Close is called while one receiver's callback is still running. The OTHER receivers that
 // were blocked must return an error promptly all the same (C12 does not let them wait for somebody else's callback,
 // which may never return); when the callback returns, Close and that Receive finish.
+// closePendingCase (C12): messages arrive at a node on which nobody is receiving (the application is busy elsewhere);
+// Close must still end promptly, and a Receive made afterwards fails. A layer that closes what is underneath before
+// it releases the message it is trying to hand up can wait for its own buffer for ever.
+func closePendingCase(tpl template, bad func(string, ...any)) {
+	memCloseErr = false
+	nodes, err := tpl.build(2, 78)
+	if err != nil {
+		return
+	}
+	name := tpl.name
+	addrs := nodes[1].tell.LocalAddrs()
+	if len(addrs) == 0 {
+		for _, n := range nodes {
+			go n.close()
+		}
+		return
+	}
+	for k := 0; k < 3; k++ {
+		tctx, cf := context.WithTimeout(context.Background(), 700*time.Millisecond)
+		nodes[0].tell.Tell(tctx, addrs[0], p2p.IOVec{[]byte(fmt.Sprintf("nobody receives this %d", k))})
+		cf()
+	}
+	time.Sleep(60 * time.Millisecond)
+	closed := make(chan struct{})
+	go func() { nodes[1].close(); close(closed) }()
+	select {
+	case <-closed:
+		cctx, cf := context.WithTimeout(context.Background(), time.Second)
+		err := nodes[1].tell.Receive(cctx, func(p2p.Message[p2p.Addr]) {})
+		cf()
+		if err == nil {
+			bad("C12 %s: Receive after Close (messages were pending when it was closed) reported success", name)
+		}
+	case <-time.After(3 * time.Second):
+		bad("C12 %s: Close did not return within 3 s while messages that nobody receives were pending", name)
+	}
+	go nodes[0].close()
+}
+
 func closeDuringCallbackCase(tpl template, bad func(string, ...any)) {
 	memCloseErr = false
 	nodes, err := tpl.build(2, 77)
@@ -941,7 +1038,23 @@ func swarmCase(r *rand.Rand, tpl template, seed int, bad func(string, ...any)) (
 	if nodes[0].ask != nil {
 		askCase(r, name, nodes, addrs, ctx, bad)
 	}
-	// ---- C12: Close with receivers blocked
+	// ---- C12: Close with receivers (and ask servers) blocked
+	serveRes := make(chan error, 2*nn)
+	nServe := 0
+	for i := range nodes {
+		if nodes[i].ask == nil {
+			continue
+		}
+		for g := 0; g < 2; g++ {
+			nServe++
+			go func() {
+				serveRes <- nodes[i].ask.ServeAsk(context.Background(), func(context.Context, []byte, p2p.Message[p2p.Addr]) int { return 0 })
+			}()
+		}
+	}
+	if nServe > 0 {
+		time.Sleep(10 * time.Millisecond)
+	}
 	for i := range nodes {
 		done := make(chan struct{})
 		go func() { nodes[i].close(); close(done) }()
@@ -963,6 +1076,31 @@ func swarmCase(r *rand.Rand, tpl template, seed int, bad func(string, ...any)) (
 			if err == nil {
 				bad("C11 %s: Ask to a node that has been closed returned success (n=%d) although no handler ran", name, n)
 			}
+		}
+	}
+	for k := 0; k < nServe; k++ {
+		select {
+		case err := <-serveRes:
+			if err == nil {
+				bad("C12 %s: a ServeAsk call that was blocked when Close was called returned nil (success) although it served nothing", name)
+			}
+		case <-time.After(2 * time.Second):
+			bad("C12 %s: ServeAsk calls still blocked 2s after Close", name)
+			k = nServe
+		}
+	}
+	for i := range nodes {
+		if nodes[i].ask == nil {
+			continue
+		}
+		cctx, cf := context.WithTimeout(context.Background(), time.Second)
+		err := nodes[i].ask.ServeAsk(cctx, func(context.Context, []byte, p2p.Message[p2p.Addr]) int { return 0 })
+		expired := cctx.Err() != nil
+		cf()
+		if err == nil {
+			bad("C12 %s: ServeAsk after Close reported success", name)
+		} else if expired {
+			bad("C12 %s: ServeAsk after Close blocked until its context expired instead of failing", name)
 		}
 	}
 	fin := make(chan struct{})
